@@ -96,6 +96,10 @@ Definition p06 (obs : sx) : sx :=
       if existsb (is_sym "panic") l then bad "panic"
       else if existsb (is_sym "handshake-not-idempotent") l then bad "handshake-message-changed-without-state-change"
       else if negb (monotone 0 0 l) then bad "session-regressed"
+      else if existsb (fun o => match o with
+                                | SL [_; _; _; _; SL [t; SN c]] => is_sym "sent" t && (c <? NONCE_POST_HANDSHAKE)
+                                | _ => false end) l
+      then bad "data-sent-under-a-handshake-counter"
       else match last l (sym "none") with
            | SL [_; SN a; SN b; SN c; SN d] =>
                if (a =? 0) || (b =? 0) then bad "not-ready-after-fair-suffix"
